@@ -1262,14 +1262,25 @@ class DomainMapping(CanBehaveLikeAVariable[T], ABC):
         sources = sources or {}
         self._yield_when_false_ = yield_when_false
         self._child_._eval_parent_ = self
+        is_condition = self._is_used_as_condition_
         if self._id_ in sources:
+            # evaluated already under this binding (one expression object used in several places of a condition): as a
+            # value it is what it is bound to, in condition position it is as true as that value is.
+            if is_condition:
+                bound = sources[self._id_]
+                self._is_false_ = bool(bound.value) == self._invert_
+                if self._is_false_ and not yield_when_false:
+                    return
+            else:
+                self._is_false_ = False
             yield sources
             return
-        is_condition = self._is_used_as_condition_
         # in condition position the values of a sub-query are restricted to its solutions: what the sub-query delivers as
         # a false row (when false rows are asked for) is false here too, whatever the mapped value is.
         sub_query = _sub_query_of_(self) if is_condition else None
-        child_val = self._child_._evaluate__(sources, yield_when_false=self._yield_when_false_)
+        # (the flag of this call, not the node's: the same expression object can be evaluated for another place of the
+        # condition while this pass is suspended)
+        child_val = self._child_._evaluate__(sources, yield_when_false=yield_when_false)
         for child_v in child_val:
             for v in self._apply_mapping_(child_v[self._child_._id_]):
                 values = copy(child_v)
@@ -1283,7 +1294,7 @@ class DomainMapping(CanBehaveLikeAVariable[T], ABC):
                     self._is_false_ = False
                 else:
                     self._is_false_ = True
-                if self._yield_when_false_ or not self._is_false_:
+                if yield_when_false or not self._is_false_:
                     values[self._id_] = v
                     yield values
 
@@ -1773,7 +1784,7 @@ class Comparator(BinaryOperator):
             # evaluated already under this binding (one condition object used in several places of a condition): it is
             # what it was there, true or false.
             self._is_false_ = not sources[self._id_].value
-            if not self._is_false_ or self._yield_when_false_:
+            if not self._is_false_ or yield_when_false:
                 yield sources
             return
 
@@ -1785,14 +1796,14 @@ class Comparator(BinaryOperator):
         first_sub_query, second_sub_query = _sub_query_of_(first_operand), _sub_query_of_(second_operand)
         first_operand._eval_parent_ = self
         first_values = first_operand._evaluate__(
-            sources, yield_when_false=self._yield_when_false_ and first_sub_query is not None)
+            sources, yield_when_false=yield_when_false and first_sub_query is not None)
         for first_value in first_values:
             first_value.update(sources)
             first_is_false = _is_not_a_solution_(first_sub_query, sources)
             operand_value_map = {first_operand._id_: first_value[first_operand._id_]}
             second_operand._eval_parent_ = self
             second_values = second_operand._evaluate__(
-                first_value, yield_when_false=self._yield_when_false_ and second_sub_query is not None)
+                first_value, yield_when_false=yield_when_false and second_sub_query is not None)
             for second_value in second_values:
                 second_is_false = _is_not_a_solution_(second_sub_query, first_value)
                 operand_value_map[second_operand._id_] = second_value[second_operand._id_]
@@ -1800,7 +1811,7 @@ class Comparator(BinaryOperator):
                 # asked for, the bindings that are not solutions are delivered as false rows of this comparison.
                 res = not (first_is_false or second_is_false) and self.apply_operation(operand_value_map)
                 self._is_false_ = not res
-                if res or self._yield_when_false_:
+                if res or yield_when_false:
                     values = copy(first_value)
                     values.update(second_value)
                     values.update(operand_value_map)
